@@ -42,6 +42,14 @@ fn vx_from_secs_f64(secs: f64) -> Duration {
     Duration::from_secs_f64(secs)
 }
 
+static mut VX_SECS: f64 = 0.0;
+fn vx_as_secs_f64(_d: Duration) -> f64 {
+    #[cfg(kani)]
+    { return unsafe { VX_SECS }; }
+    #[cfg(not(kani))]
+    _d.as_secs_f64()
+}
+
 //@item backoff fn:capped_exponential
 
 struct ExponentialRandomBackoff { initial_interval: Duration, multiplier: f64, randomization_factor: f64, max_interval: Option<Duration> }
@@ -77,7 +85,10 @@ mod harnesses {
     /// C14: jittered delay never panics (range is non-empty and finite, conversion in range) for every base delay and factor in [0,1].
     #[kani::proof]
     fn jitter_total() {
-        let d = any_duration();
+        let d = Duration::new(kani::any(), 0);
+        let secs: f64 = kani::any();
+        kani::assume(secs >= 0.0 && secs <= 18_446_744_073_709_551_616.0);
+        unsafe { VX_SECS = secs; }
         let f: f64 = kani::any();
         kani::assume(f >= 0.0 && f <= 1.0);
         let b = ExponentialRandomBackoff { initial_interval: d, multiplier: 2.0, randomization_factor: f, max_interval: None };
